@@ -77,6 +77,9 @@ Step ==
         IN /\ viol' = IF j[1] /\ ~missed THEN viol ELSE Append(viol, l)
            /\ devs' = IF j[1] /\ j[2] # "" THEN Append(devs, <<l, j[2]>>) ELSE devs
            /\ nbp' = nbp + 1 /\ pending' = -1 /\ UNCHANGED nrt
+     ELSE IF e.op = "skip" THEN   \* input not executed: its entry point was stopped after confirmed hangs (C02 reports those)
+        /\ viol' = IF missed THEN Append(viol, l) ELSE viol
+        /\ pending' = -1 /\ UNCHANGED <<devs, nrt, nbp>>
      ELSE
         /\ viol' = Append(viol, l) /\ pending' = -1 /\ UNCHANGED <<devs, nrt, nbp>>
   /\ l' = l + 1
